@@ -14,7 +14,10 @@ src/coap_resource.c).  Core Lean only.
   `coap_add_observer`, runs `cntTrack`);
 * the server-side call-outs (`Srv`): which updaters run, in which order, for resource creation / deletion,
   observe registration / cancellation, notification, start-up; the Observe counter arithmetic incl. the
-  rounding `((n + f) / f) * f - 1` and the 24-bit mask.
+  rounding `((n + f) / f) * f - 1` and the 24-bit mask;
+* the endpoints of the context (`Ep`, `Srv.eps`) and the endpoint search at the head of
+  `coap_persist_observe_add_lkd` (`epWalk`, `findEp`): a stored observation is re-established on the endpoint with
+  the record's protocol and listen address, wherever it is in `context->endpoint`.
 
 Modelled code = the tree AFTER the three `fix:` commits (dyn file opened "r"; counter entry removed after the
 dyn entry; empty resource name neither written nor read).  The pinned `coap_op_dyn_resource_added` (mode "a") is kept as `dynAddedPinned` for the witness.
@@ -437,10 +440,30 @@ structure Res where
   subs : List Sub          -- newest first (LL_PREPEND)
   deriving Repr
 
+/-- an endpoint of the server context: `ep->proto` and the bytes of `ep->bind_addr` (`coap_address_t`) -/
+structure Ep where
+  proto : Nat
+  addr : Bytes
+  deriving DecidableEq, Repr
+
+def protoUdp : Nat := 1      -- COAP_PROTO_UDP
+
+/-- the loop `ep = context->endpoint; while (ep) { if (ep->proto == e_proto && memcmp(e_listen_addr, &ep->bind_addr, …) == 0)
+break; ep = ep->next; }` of `coap_persist_observe_add_lkd` -/
+def epWalk (proto : Nat) (listen : Bytes) : List Ep → Option Ep
+  | [] => none
+  | e :: r => if e.proto = proto ∧ e.addr = listen then some e else epWalk proto listen r
+
+/-- the endpoint `coap_persist_observe_add_lkd` creates the session on: `e_proto != COAP_PROTO_UDP` → NULL, then EVERY
+endpoint of the context is tried (in `context->endpoint` order) until one has the record's protocol and listen address -/
+def findEp (eps : List Ep) (proto : Nat) (listen : Bytes) : Option Ep :=
+  if proto ≠ protoUdp then none else epWalk proto listen eps
+
 structure Srv where
   res : List Res
   nextKey : Nat
   f : Nat
+  eps : List Ep := []        -- `context->endpoint` (LL_PREPEND: the endpoint created last comes first)
   deriving Repr
 
 def Srv.find (s : Srv) (name : Bytes) : Option Res := s.res.find? (·.name = name)
@@ -586,6 +609,10 @@ def loadObsLoop (info : PktInfo) : Nat → Bytes → Srv → (FS × List Op) →
     | (szs, none) => (s, runUpd st (fun _ => readsFrom (main .obs) szs))
     | (szs, some (r, rest)) =>
       let st := runUpd st (fun _ => readsFrom (main .obs) szs)
+      -- coap_persist_observe_add_lkd: UDP only, the endpoint the request came in on must exist in this context
+      match findEp s.eps r.proto r.listen with
+      | none => loadObsLoop info fuel rest s st              -- no such endpoint: the record is dropped
+      | some _ =>
       match info r.pkt with
       | none => loadObsLoop info fuel rest s st
       | some (name, client, ver) =>
@@ -618,9 +645,9 @@ def loadObs (info : PktInfo) (fs : FS) (s : Srv) : Srv × FS × List Op :=
     (s', st.1, st.2)
   else (s, fs, [fopen (main .obs) .r])
 
-/-- `coap_persist_startup(ctx, dyn, obs, cnt, f)` on a fresh context -/
-def startup (info : PktInfo) (fs : FS) (f nextKey : Nat) : Srv × FS × List Op :=
-  let s0 : Srv := ⟨[], nextKey, if f = 0 then 1 else f⟩
+/-- `coap_persist_startup(ctx, dyn, obs, cnt, f)` on a fresh context whose endpoints are `eps` -/
+def startup (info : PktInfo) (eps : List Ep) (fs : FS) (f nextKey : Nat) : Srv × FS × List Op :=
+  let s0 : Srv := ⟨[], nextKey, if f = 0 then 1 else f, eps⟩
   let (s1, o1) := loadDyn fs s0
   let fs1 := exec fs o1
   let (s2, o2) := loadCnt fs1 s1
